@@ -1,6 +1,7 @@
 (* KvExpiry.v - removal by expiry is a removal: what the row checker of C05 says of Delete holds of every
    document that a firing of the expiry timer removes, in every history of the model.               *)
 From Rosmar Require Import Base Json Crc Hlc Kv Store Trace KvTac KvLift KvFrame KvC05 ExpProofs KvC14Trace.
+From Coq Require Import Permutation.
 
 Lemma sys_only_idem x : xattrs_system_only (xattrs_system_only x) = xattrs_system_only x.
 Proof.
@@ -126,4 +127,269 @@ Theorem C05_expiry_sound c : wf_case c -> chk_expiry_kv chk_row_C05 (c, srun c) 
 Proof.
   intros Hwf. unfold chk_expiry_kv, snap0, srun. cbn [fst snd].
   apply (walk_sound_gen (chk_step_expiry chk_row_C05) expiry_step_sound_C05 c (sc_steps c) store0 0 store0_ok store0_tables_ok Hwf).
+Qed.
+
+(* ------------------------------------------------------------------------------------------ *)
+(* The general statement: a firing removes each due document exactly once - the row it leaves and the events
+   posted for it are those of one Delete - so EVERY sound row checker's rule for Delete holds of it.        *)
+
+Lemma insert_exp_perm d l : Permutation (insert_by_exp d l) (d :: l).
+Proof.
+  induction l as [|d' r IH]; cbn; [apply Permutation_refl|].
+  destruct (r_exp (snd d) <? r_exp (snd d')); [apply Permutation_refl|].
+  apply perm_trans with (d' :: d :: r); [apply perm_skip; exact IH | apply perm_swap].
+Qed.
+
+Lemma fold_insert_exp_perm l : forall acc, Permutation (fold_left (fun a d => insert_by_exp d a) l acc) (l ++ acc).
+Proof.
+  induction l as [|d r IH]; intros acc; cbn [fold_left app]; [apply Permutation_refl|].
+  apply perm_trans with (r ++ insert_by_exp d acc); [apply IH|].
+  apply perm_trans with (r ++ d :: acc); [apply Permutation_app_head; apply insert_exp_perm|].
+  apply Permutation_sym. apply Permutation_middle.
+Qed.
+
+Lemma nodup_second (cid : N) (l : list (dkey * row)) :
+  NoDup (map fst l) -> (forall d, In d l -> fst (fst d) = cid) -> NoDup (map (fun d => snd (fst d)) l).
+Proof.
+  induction l as [|d r IH]; cbn; intros Hnd Hc; [constructor|]. inversion Hnd as [|? ? Hn Hr]; subst.
+  constructor; [|apply IH; [exact Hr | intros d' Hd'; apply Hc; right; exact Hd']].
+  intros Hin. apply in_map_iff in Hin. destruct Hin as (d' & He & Hd'). apply Hn. apply in_map_iff. exists d'. split; [|exact Hd'].
+  destruct d as [[c k] rr], d' as [[c' k'] rr']. cbn in *. pose proof (Hc _ (or_introl eq_refl)) as H1. pose proof (Hc _ (or_intror Hd')) as H2.
+  cbn in H1, H2. subst. reflexivity.
+Qed.
+
+Lemma nodup_map_filter {A B} (f : A -> B) (P : A -> bool) l : NoDup (map f l) -> NoDup (map f (filter P l)).
+Proof.
+  induction l as [|a r IH]; cbn; intros H; [constructor|]. inversion H as [|? ? Hn Hr]; subst.
+  destruct (P a); cbn; [|apply IH; exact Hr]. constructor; [|apply IH; exact Hr].
+  intros Hin. apply Hn. apply in_map_iff in Hin. destruct Hin as (x & <- & Hx). apply filter_In in Hx. apply in_map. apply Hx.
+Qed.
+
+Lemma due_keys_nodup s cid now : tables_ok s -> NoDup (due_keys s cid now).
+Proof.
+  intros Ht. unfold due_keys.
+  cbv zeta. set (due := filter (fun d : dkey * row => (fst (fst d) =? cid) && (0 <? r_exp (snd d)) && (r_exp (snd d) <=? now)) (s_docs s)).
+  apply (Permutation_NoDup (l := map (fun d : dkey * row => snd (fst d)) due)).
+  - apply Permutation_map. apply Permutation_sym. pose proof (fold_insert_exp_perm due []) as P. rewrite app_nil_r in P. exact P.
+  - apply (nodup_second cid).
+    + apply nodup_map_filter. exact (t_docs_nodup s Ht).
+    + intros d Hd. apply filter_In in Hd. destruct Hd as [_ Hq].
+      apply andb_true_iff in Hq. destruct Hq as [Hq _]. apply andb_true_iff in Hq. destruct Hq as [Hq _]. apply N.eqb_eq in Hq. exact Hq.
+Qed.
+
+(* ---- collection ids are positive (the id events carry is the row id minus one) ---- *)
+Definition ids_pos (s : store) : Prop := 1 <= s_nextcoll s /\ forall id, In id (coll_ids s) -> 1 <= id.
+
+Lemma ids_pos0 : ids_pos store0.
+Proof. split; [apply N.leb_le; reflexivity | intros id Hin; cbn in Hin; destruct Hin as [<-|[]]; apply N.leb_le; reflexivity]. Qed.
+
+Lemma kv_on_nextcoll s x cid key op : s_nextcoll (sr_store (kv_on s x cid key op)) = s_nextcoll s.
+Proof. reflexivity. Qed.
+
+Lemma expire_keys_ids x cid keys : forall s acc,
+  coll_ids (fst (expire_keys s x cid keys acc)) = coll_ids s /\ s_nextcoll (fst (expire_keys s x cid keys acc)) = s_nextcoll s.
+Proof.
+  induction keys as [|k r IH]; intros s acc; cbn [expire_keys]; [split; reflexivity|].
+  destruct (IH (sr_store (kv_on s x cid k KDelete)) (acc ++ sr_events (kv_on s x cid k KDelete))) as [A B].
+  rewrite A, B, kv_on_ids. split; reflexivity.
+Qed.
+
+Lemma expire_colls_ids x cids : forall s acc,
+  coll_ids (fst (expire_colls s x cids acc)) = coll_ids s /\ s_nextcoll (fst (expire_colls s x cids acc)) = s_nextcoll s.
+Proof.
+  induction cids as [|cid r IH]; intros s acc; cbn [expire_colls]; [split; reflexivity|].
+  pose proof (expire_keys_ids x cid (due_keys s cid (x_now x)) s acc) as [A B].
+  destruct (expire_keys s x cid (due_keys s cid (x_now x)) acc) as [s1 acc1]. cbn [fst] in *.
+  destruct (IH s1 acc1) as [C D]. rewrite C, D, A, B. split; reflexivity.
+Qed.
+
+Lemma sstep_ids_pos s x o : ids_pos s -> ids_pos (sr_store (sstep s x o)).
+Proof.
+  intros [Hn Hp]. destruct o; cbn [sstep].
+  - destruct (coll_id s coll); [|split; assumption]. split; [exact Hn | rewrite kv_on_ids; exact Hp].
+  - split; assumption.
+  - destruct (coll_id s name); [split; assumption|]. unfold create_coll, ids_pos, coll_ids; cbn [fst sr_store s_nextcoll s_colls]. split; [lia|].
+    intros id Hin. rewrite map_app in Hin. apply in_app_iff in Hin. destruct Hin as [Hin|[<-|[]]]; [apply Hp; exact Hin | exact Hn].
+  - destruct (String.eqb name default_coll); [split; assumption|]. destruct (coll_id s name); [|split; assumption].
+    unfold ids_pos, coll_ids; cbn [sr_store s_nextcoll s_colls]. split; [exact Hn|].
+    intros id Hin. apply in_map_iff in Hin. destruct Hin as (c & <- & Hc). apply filter_In in Hc. apply Hp. apply in_map. apply Hc.
+  - destruct (coll_id s coll); split; assumption.
+  - split; assumption.
+  - destruct (coll_id s coll); split; assumption.
+  - destruct (coll_id s coll); [|split; assumption]. destruct (same_ddoc _ _ _ _); split; assumption.
+  - destruct (coll_id s coll); [|split; assumption]. destruct (existsb _ _); split; assumption.
+  - destruct (coll_id s coll); [|split; assumption]. destruct (filter _ _); split; assumption.
+  - pose proof (expire_colls_ids x (map fst (s_colls s)) s []) as [A B].
+    destruct (expire_colls s x (map fst (s_colls s)) []) as [s' evs]. cbn [fst sr_store] in *. split; [rewrite B; exact Hn | rewrite A; exact Hp].
+  - destruct (coll_id s coll); split; assumption.
+  - destruct (coll_id s coll); split; assumption.
+  - split; assumption.
+Qed.
+
+(* ---- each due document is removed exactly once ---- *)
+Definition evs_of (k : dkey) (l : list (N * string * event)) : list (N * string * event) := filter (fun e => dkey_eqb (fst e) k) l.
+
+Lemma evs_of_app k a b : evs_of k (a ++ b) = evs_of k a ++ evs_of k b.
+Proof. apply filter_app. Qed.
+
+Lemma dkey_eqb_refl k : dkey_eqb k k = true.
+Proof. apply dkey_eqb_spec. reflexivity. Qed.
+Lemma dkey_eqb_neq k k' : k <> k' -> dkey_eqb k k' = false.
+Proof. intros H. destruct (dkey_eqb k k') eqn:E; [apply dkey_eqb_spec in E; contradiction | reflexivity]. Qed.
+
+Lemma evs_of_kv_on_same s x cid key op : evs_of (cid, key) (sr_events (kv_on s x cid key op)) = sr_events (kv_on s x cid key op).
+Proof.
+  unfold kv_on; cbv zeta; cbn [sr_events]. unfold evs_of. induction (kr_events _) as [|e r IH]; cbn; [reflexivity|].
+  rewrite dkey_eqb_refl. f_equal. exact IH.
+Qed.
+Lemma evs_of_kv_on_other s x cid key op k' : k' <> (cid, key) -> evs_of k' (sr_events (kv_on s x cid key op)) = [].
+Proof.
+  intros Hne. unfold kv_on; cbv zeta; cbn [sr_events]. unfold evs_of. induction (kr_events _) as [|e r IH]; cbn; [reflexivity|].
+  rewrite dkey_eqb_neq by (intros E; apply Hne; symmetry; exact E). exact IH.
+Qed.
+
+Lemma expire_keys_untouched x cid keys k' : forall s acc, (fst k' <> cid \/ ~ In (snd k') keys) ->
+  get_doc (fst (expire_keys s x cid keys acc)) k' = get_doc s k'
+  /\ evs_of k' (snd (expire_keys s x cid keys acc)) = evs_of k' acc.
+Proof.
+  induction keys as [|k0 rest IH]; intros s acc H; cbn [expire_keys]; [split; reflexivity|].
+  assert (k' <> (cid, k0)) as Hne.
+  { intros ->. cbn in H. destruct H as [H|H]; [apply H; reflexivity | apply H; left; reflexivity]. }
+  destruct (IH (sr_store (kv_on s x cid k0 KDelete)) (acc ++ sr_events (kv_on s x cid k0 KDelete))) as [A B].
+  { destruct H as [H|H]; [left; exact H | right; intros Hin; apply H; right; exact Hin]. }
+  rewrite A, B, evs_of_app, evs_of_kv_on_other by exact Hne. rewrite app_nil_r. split; [apply kv_on_frame; exact Hne | reflexivity].
+Qed.
+
+Definition del_res (x : sctx) (c1 : N) (r : row) : kres := kstep (mkCtx (x_now x) c1 (x_maxdoc x)) KDelete (Some r).
+
+Lemma expire_keys_exact x cid keys k r : forall s acc, NoDup keys -> In k keys -> get_doc s (cid, k) = Some r ->
+  exists c1,
+    get_doc (fst (expire_keys s x cid keys acc)) (cid, k) = kr_row (del_res x c1 r)
+    /\ evs_of (cid, k) (snd (expire_keys s x cid keys acc)) = evs_of (cid, k) acc ++ map (fun e => (cid, k, e)) (kr_events (del_res x c1 r)).
+Proof.
+  induction keys as [|k0 rest IH]; intros s acc Hnd Hin Hg; [destruct Hin|]. cbn [expire_keys].
+  inversion Hnd as [|? ? Hn Hr]; subst.
+  destruct (string_dec k k0) as [->|Hne].
+  - exists (hlc_now (s_high s) (x_clock x)).
+    destruct (expire_keys_untouched x cid rest (cid, k0) (sr_store (kv_on s x cid k0 KDelete)) (acc ++ sr_events (kv_on s x cid k0 KDelete))) as [A B].
+    { right. exact Hn. }
+    rewrite A, B, evs_of_app, evs_of_kv_on_same, get_doc_kv_on, Hg. split; [reflexivity|].
+    unfold kv_on; cbv zeta; cbn [sr_events]. rewrite Hg. reflexivity.
+  - destruct Hin as [E|Hin]; [congruence|].
+    destruct (IH (sr_store (kv_on s x cid k0 KDelete)) (acc ++ sr_events (kv_on s x cid k0 KDelete)) Hr Hin) as (c1 & A & B).
+    { rewrite kv_on_frame; [exact Hg | intros E; inversion E; contradiction]. }
+    exists c1. rewrite A, B, evs_of_app, evs_of_kv_on_other by (intros E; inversion E; contradiction). rewrite app_nil_r. split; reflexivity.
+Qed.
+
+Lemma expire_colls_untouched x cids k' : forall s acc, ~ In (fst k') cids ->
+  get_doc (fst (expire_colls s x cids acc)) k' = get_doc s k'
+  /\ evs_of k' (snd (expire_colls s x cids acc)) = evs_of k' acc.
+Proof.
+  induction cids as [|cid rest IH]; intros s acc H; cbn [expire_colls]; [split; reflexivity|].
+  destruct (expire_keys_untouched x cid (due_keys s cid (x_now x)) k' s acc) as [A B].
+  { left. intros E. apply H. left. symmetry. exact E. }
+  destruct (expire_keys s x cid (due_keys s cid (x_now x)) acc) as [s1 acc1]. cbn [fst snd] in *.
+  destruct (IH s1 acc1) as [C D]. { intros Hin. apply H. right. exact Hin. }
+  rewrite C, D, A, B. split; reflexivity.
+Qed.
+
+Lemma expire_colls_exact x cids cid k r : forall s acc, tables_ok s -> NoDup cids -> In cid cids ->
+  get_doc s (cid, k) = Some r -> due (x_now x) r ->
+  exists c1,
+    get_doc (fst (expire_colls s x cids acc)) (cid, k) = kr_row (del_res x c1 r)
+    /\ evs_of (cid, k) (snd (expire_colls s x cids acc)) = evs_of (cid, k) acc ++ map (fun e => (cid, k, e)) (kr_events (del_res x c1 r)).
+Proof.
+  induction cids as [|c0 rest IH]; intros s acc Hs Hnd Hin Hg Hd; [destruct Hin|]. cbn [expire_colls].
+  inversion Hnd as [|? ? Hn Hr]; subst.
+  pose proof (expire_keys_tables x c0 (due_keys s c0 (x_now x)) s acc) as T.
+  destruct (N.eq_dec cid c0) as [->|Hne].
+  - destruct (expire_keys_exact x c0 (due_keys s c0 (x_now x)) k r s acc (due_keys_nodup s c0 (x_now x) Hs)) as (c1 & A & B).
+    { apply due_keys_In. exists r. split; [|exact Hd]. unfold get_doc in Hg. apply (alookup_In dkey_eqb dkey_eqb_spec) in Hg. exact Hg. }
+    { exact Hg. }
+    destruct (expire_keys s x c0 (due_keys s c0 (x_now x)) acc) as [s1 acc1]. cbn [fst snd] in *.
+    destruct (expire_colls_untouched x rest (c0, k) s1 acc1 Hn) as [C D].
+    exists c1. rewrite C, D, A, B. split; reflexivity.
+  - destruct Hin as [E|Hin]; [congruence|].
+    destruct (expire_keys_untouched x c0 (due_keys s c0 (x_now x)) (cid, k) s acc) as [A B]. { left. exact Hne. }
+    assert (tables_ok (fst (expire_keys s x c0 (due_keys s c0 (x_now x)) acc))) as Hs1.
+    { destruct (in_dec N.eq_dec c0 (coll_ids s)) as [Hc|Hnot]; [apply (proj1 (T Hc Hs))|].
+      assert (due_keys s c0 (x_now x) = []) as Hdk.
+      { destruct (due_keys s c0 (x_now x)) as [|k1 l] eqn:Ed; [reflexivity|]. exfalso.
+        assert (In k1 (due_keys s c0 (x_now x))) as Hk by (rewrite Ed; left; reflexivity).
+        apply due_keys_In in Hk. destruct Hk as (r1 & Hi & _). apply Hnot. exact (t_doc_cids s Hs _ Hi). }
+      rewrite Hdk. exact Hs. }
+    destruct (expire_keys s x c0 (due_keys s c0 (x_now x)) acc) as [s1 acc1]. cbn [fst snd] in *.
+    destruct (IH s1 acc1 Hs1 Hr Hin) as (c1 & C & D); [rewrite A; exact Hg | exact Hd|].
+    exists c1. rewrite C, D, B. split; reflexivity.
+Qed.
+
+(* ---- the events of one document, as the feed shows them ---- *)
+Lemma expire_keys_events_in x cid keys : forall s acc e, In e (snd (expire_keys s x cid keys acc)) -> In e acc \/ fst (fst e) = cid.
+Proof.
+  induction keys as [|k r IH]; intros s acc e H; cbn [expire_keys] in H; [left; exact H|].
+  apply IH in H. destruct H as [H|H]; [|right; exact H]. apply in_app_iff in H. destruct H as [H|H]; [left; exact H|].
+  right. apply kv_on_events_local in H. rewrite H. reflexivity.
+Qed.
+
+Lemma expire_colls_events_in x cids : forall s acc e, In e (snd (expire_colls s x cids acc)) -> In e acc \/ In (fst (fst e)) cids.
+Proof.
+  induction cids as [|cid r IH]; intros s acc e H; cbn [expire_colls] in H; [left; exact H|].
+  pose proof (expire_keys_events_in x cid (due_keys s cid (x_now x)) s acc e) as K.
+  destruct (expire_keys s x cid (due_keys s cid (x_now x)) acc) as [s1 acc1]. cbn [snd] in *.
+  apply IH in H. destruct H as [H|H]; [|right; right; exact H]. destruct (K H) as [A|A]; [left; exact A | right; left; symmetry; exact A].
+Qed.
+
+Lemma filter_feed_events cid k evs : 1 <= cid -> (forall e, In e evs -> 1 <= fst (fst e)) ->
+  filter (fun f => String.eqb (f_key f) k && (f_coll f =? cid - 1)) (fevents_of evs) = fevents_of (evs_of (cid, k) evs).
+Proof.
+  intros Hc Hp. unfold fevents_of, evs_of. induction evs as [|[[c' k'] ev] r IH]; cbn [map filter]; [reflexivity|].
+  cbn [fst snd as_feed_event f_key f_coll]. unfold dkey_eqb at 1. cbn [fst snd].
+  assert (1 <= c') as Hc' by (apply (Hp (c', k', ev)); left; reflexivity).
+  assert ((c' - 1 =? cid - 1) = (c' =? cid)) as ->.
+  { destruct (N.eqb_spec c' cid) as [->|Hne]; [apply N.eqb_refl | apply N.eqb_neq; lia]. }
+  rewrite andb_comm. destruct ((c' =? cid) && String.eqb k' k); cbn [map]; rewrite IH by (intros e He; apply Hp; right; exact He); reflexivity.
+Qed.
+
+Lemma expiry_step_sound rc : rc_sound rc -> forall s n x o colls keys xn, store_ok s -> tables_ok s -> wf_sop o -> ids_pos s ->
+  let res := sstep s x o in
+  let n' := next_after n s o res in
+  chk_step_expiry rc (with_next (snap s colls keys xn) n) x o
+    (mkOstep (sr_resp res) (fevents_of (sr_events res)) (sr_dump res) (with_next (snap (sr_store res) colls keys xn) n')) = true
+  /\ ids_pos (sr_store res).
+Proof.
+  intros Hrc s n x o colls keys xn Hs Ht Hwf Hpos. cbv zeta. split; [|apply sstep_ids_pos; exact Hpos].
+  destruct o; try reflexivity.
+  destruct (expire_step_facts s x Ht) as [Hid Habs]. cbv zeta in *.
+  unfold chk_step_expiry. cbn [os_snap os_live with_next sn_rows].
+  apply forallb_forall. intros e He.
+  destruct e as [[c k] ob]. cbn [fst snd] in *.
+  apply In_snap_rows in He. cbn [fst snd] in He. destruct He as (cid & Ec & ->).
+  rewrite row_exp_obs.
+  destruct (get_doc s (cid, k)) as [r0|] eqn:Eg; [|reflexivity].
+  destruct ((0 <? r_exp r0) && (r_exp r0 <=? x_now x)) eqn:Ed; [|reflexivity].
+  apply andb_true_iff in Ed. destruct Ed as [E1 E2]. apply N.ltb_lt in E1. apply N.leb_le in E2.
+  destruct (look (c, k) (sn_rows (snap (sr_store (sstep s x SExpire)) colls keys xn))) as [o1|] eqn:El; [|reflexivity].
+  apply look_snap in El. destruct El as (cid' & Ec' & ->). rewrite Hid, Ec in Ec'. inversion Ec'; subst cid'.
+  pose proof (coll_id_in_ids s c cid Ec) as Hcin.
+  assert (exists c1, get_doc (sr_store (sstep s x SExpire)) (cid, k) = kr_row (del_res x c1 r0)
+                     /\ evs_of (cid, k) (sr_events (sstep s x SExpire)) = map (fun e => (cid, k, e)) (kr_events (del_res x c1 r0))
+                     /\ (forall e, In e (sr_events (sstep s x SExpire)) -> 1 <= fst (fst e))) as (c1 & Hg' & Hev & Hevpos).
+  { cbn [sstep].
+    pose proof (expire_colls_exact x (map fst (s_colls s)) cid k r0 s [] Ht (t_ids_nodup s Ht) Hcin Eg (conj E1 E2)) as (c1 & A & B).
+    pose proof (expire_colls_events_in x (map fst (s_colls s)) s []) as Hin.
+    destruct (expire_colls s x (map fst (s_colls s)) []) as [s' evs]. cbn [fst snd sr_store sr_events] in *.
+    exists c1. split; [exact A | split; [exact B|]]. intros e He. destruct (Hin e He) as [[]|H]. apply (proj2 Hpos). exact H. }
+  rewrite Hg'. rewrite !view_of_obs_of, coll_of_obs_of.
+  unfold del_res in *. cbn [kstep do_remove with_resp kr_row] in Hg' |- *.
+  rewrite (filter_feed_events cid k _ (proj2 Hpos cid Hcin) Hevpos), Hev.
+  destruct (get_doc_orow_ok s (cid, k) Hs) as [Ho Hc]. rewrite Eg in Ho, Hc.
+  pose proof (Hrc k (cid - 1) x c1 KDelete (Some r0) I Ho Hc) as H. cbv zeta in H.
+  cbn [kstep do_remove with_resp kr_row kr_resp kr_events option_map] in H |- *.
+  unfold fevents_of. rewrite map_map. cbn [fst snd]. exact H.
+Qed.
+
+Theorem expiry_sound rc : rc_sound rc -> forall c, wf_case c -> chk_expiry_kv rc (c, srun c) = true.
+Proof.
+  intros Hrc c Hwf. unfold chk_expiry_kv, snap0, srun. cbn [fst snd].
+  apply (walk_sound_inv (chk_step_expiry rc) (fun s _ => ids_pos s) (expiry_step_sound rc Hrc) c (sc_steps c) store0 0 store0_ok store0_tables_ok Hwf ids_pos0).
 Qed.
